@@ -604,6 +604,17 @@ func (t *tr) modLoc(l ast.Expr, sc *specCtx) []frameLoc {
 		p := t.spec(x.X, sc)
 		return t.modObject(p, sc)
 	case *ast.IndexExpr:
+		// G[i] where G is a ghost variable of array sort: one cell of G
+		if id, ok := x.X.(*ast.Ident); ok {
+			if _, isVar := sc.vars[id.Name]; !isVar {
+				if d, ok := t.V.ghostVars[id.Name]; ok {
+					gv := t.ghostVar(d)
+					if strings.HasPrefix(gv.Sort, "(Array ") {
+						return []frameLoc{{heap: gv, ref: t.spec(x.Index, sc)}}
+					}
+				}
+			}
+		}
 		a := t.spec(x.X, sc)
 		i := t.spec(x.Index, sc)
 		if a.Sort == SSlice && a.T != nil {
@@ -961,6 +972,14 @@ func (t *tr) evBuiltin(name string, c *ast.CallExpr) []Term {
 			a = r
 		}
 		return one(a)
+	case "unsafe.Add":
+		// pointer arithmetic is abstract: padd(p, x) (see trusted/frame.contracts)
+		pv := t.ev(c.Args[0])
+		n := t.ev(c.Args[1])
+		W.declFun("sf$padd", []string{SInt, SInt}, SInt)
+		r := app("sf$padd", SInt, pv, n)
+		r.T = t.typeOf(c)
+		return one(r)
 	case "print", "println":
 		for _, a := range c.Args {
 			t.ev(a)
